@@ -8,7 +8,9 @@ scripted) and are compared with the Lean model run on the same text and with the
 evaluated on the abstract maps. Every subset of the 14 optional meminfo keys is enumerated.
 """
 import concurrent.futures
+import errno
 import itertools
+import os
 import re
 import warnings
 from fractions import Fraction
@@ -49,6 +51,8 @@ NOISE = [("SwapCached", True), ("Active(anon)", True), ("Inactive(anon)", True),
          ("HugePages_Free", False), ("Hugepagesize", True), ("DirectMap4k", True), ("MemAvailableX", True),
          ("xMemTotal", True), ("Cached2", True), ("SwapTotal", True), ("SwapFree", True)]
 PAGESIZES = [4096, 16384, 65536]
+UNREADABLE = ["ENOENT", "EISDIR", "EACCES", "EIO"]
+FINDING_SWAP_PAGESIZE = "C08-swap-pagesize"
 WARN_RE = re.compile(r"^(.*) memory stats couldn't be determined and (was|were) set to 0$")
 SWAP_WARN_RE = re.compile(r"^'sin' and 'sout' swap memory stats couldn't be determined and were set to 0")
 
@@ -67,21 +71,41 @@ class Impl:
         self.fp = fakeproc.FakeProc(self.ps, prefix="psv-c08-")
         self.saved_pagesize = self.plat.PAGESIZE
         self.saved_sysinfo = self.plat.cext.linux_sysinfo
+        self.saved_open_binary = self.plat.open_binary
 
     def close(self):
         self.plat.PAGESIZE = self.saved_pagesize
         self.plat.cext.linux_sysinfo = self.saved_sysinfo
+        self.plat.open_binary = self.saved_open_binary
         self.fp.close()
 
-    def _put(self, rel, data):
-        if data is None:
+    def _put(self, rel, data, unreadable=None):
+        """`data is None`: the file cannot be read — in the way `unreadable` says: ENOENT (absent,
+        the default), EISDIR (a directory sits there: open() itself raises IsADirectoryError),
+        EACCES / EIO (open_binary of `_pslinux` answers PermissionError / OSError(EIO) for exactly
+        this path: hardened kernels, LSMs and lxcfs do that for /proc/zoneinfo and /proc/vmstat)"""
+        self.plat.open_binary = self.saved_open_binary
+        if data is not None:
             self.fp.remove(rel)
-        else:
             self.fp.write(rel, data)
+            return
+        self.fp.remove(rel)
+        how = unreadable or "ENOENT"
+        if how == "EISDIR":
+            self.fp.mkdir(rel)
+        elif how in ("EACCES", "EIO"):
+            self.fp.write(rel, b"low 1\npswpin 1\npswpout 1\n")     # readable content nobody may see
+            target, real, code = self.fp.path(rel), self.saved_open_binary, getattr(errno, how)
 
-    def vm(self, meminfo, zoneinfo, pagesize):
+            def open_binary(fname):
+                if fname == target:
+                    raise OSError(code, os.strerror(code), fname)
+                return real(fname)
+            self.plat.open_binary = open_binary
+
+    def vm(self, meminfo, zoneinfo, pagesize, unreadable=None):
         self._put("meminfo", meminfo)
-        self._put("zoneinfo", zoneinfo)
+        self._put("zoneinfo", zoneinfo, unreadable)
         self.plat.PAGESIZE = pagesize
         self.ps._TOTAL_PHYMEM = None
         with warnings.catch_warnings(record=True) as ws:
@@ -92,10 +116,12 @@ class Impl:
                 if isinstance(e, (KeyboardInterrupt, SystemExit)):
                     raise
                 return {"kind": "exc", "exc": type(e).__name__}
+            finally:
+                self.plat.open_binary = self.saved_open_binary
         out = {"kind": "ok", "fields": dict(r._asdict()), "missing": [], "odd": []}
         for w in ws:
             m = WARN_RE.match(str(w.message))
-            if m and issubclass(w.category, RuntimeWarning):
+            if m and w.category is RuntimeWarning:
                 names = m.group(1).split(", ")
                 if (m.group(2) == "was") != (len(names) == 1):
                     out["odd"].append("was/were: " + str(w.message))
@@ -108,9 +134,10 @@ class Impl:
             out["odd"].append("_TOTAL_PHYMEM=%r" % (self.ps._TOTAL_PHYMEM,))
         return out
 
-    def swap(self, meminfo, sysinfo, vmstat):
+    def swap(self, meminfo, sysinfo, vmstat, pagesize=4096, unreadable=None):
         self._put("meminfo", meminfo)
-        self._put("vmstat", vmstat)
+        self._put("vmstat", vmstat, unreadable)
+        self.plat.PAGESIZE = pagesize
         calls = []
 
         def fake_sysinfo():
@@ -129,9 +156,10 @@ class Impl:
                 return {"kind": "exc", "exc": type(e).__name__}
             finally:
                 self.plat.cext.linux_sysinfo = self.saved_sysinfo
+                self.plat.open_binary = self.saved_open_binary
         out = {"kind": "ok", "fields": dict(r._asdict()), "warned": False, "sysinfo": bool(calls), "odd": []}
         for w in ws:
-            if SWAP_WARN_RE.match(str(w.message)) and issubclass(w.category, RuntimeWarning):
+            if SWAP_WARN_RE.match(str(w.message)) and w.category is RuntimeWarning:
                 out["warned"] = True
             else:
                 out["odd"].append("%s: %s" % (w.category.__name__, w.message))
@@ -389,12 +417,29 @@ def compare_swap(case, impl, out, res, source):
         res.disagree("spec", inp, impl, model, spec, note="unexpected warning(s): %s" % impl["odd"])
         return "spec"
     exact = None
+    tagged = False
     if spec and spec.get("kind") == "ok":
         exact = _frac(spec["fields"]["percent"])
         if impl["kind"] != "ok":
             res.disagree("spec", inp, impl, model, spec, note="swap_memory() must succeed")
             return "spec"
         note = cmp_record(impl, spec, exact, True, res, "swap")
+        if note is not None and out.get("codepage") not in (None, case["pagesize"]) and model.get("kind") == "ok":
+            # Region of finding C08-swap-pagesize: the code (per fact swapPages) multiplies the page
+            # counters by `codepage` = 4096 while the kernel's pages are `pagesize` bytes. The input is
+            # inside the region iff the ONLY difference with the promise is sin/sout and the
+            # implementation reports exactly pages × 4096 (what the model of the code as found says).
+            patched = {"fields": dict(spec["fields"], sin=model["fields"]["sin"], sout=model["fields"]["sout"])}
+            cp, ps = out["codepage"], case["pagesize"]
+            if (cmp_record(impl, patched, exact, True, res, "swap") is None
+                    and spec["fields"]["sin"] * cp == model["fields"]["sin"] * ps
+                    and spec["fields"]["sout"] * cp == model["fields"]["sout"] * ps):
+                res.known_seen[FINDING_SWAP_PAGESIZE] = res.known_seen.get(FINDING_SWAP_PAGESIZE, 0) + 1
+                res.count("swap:finding_region_pagesize_ne_4096")
+                res.disagree("spec", inp, impl, model, spec, finding=FINDING_SWAP_PAGESIZE,
+                             note="sin/sout = pages × %d on a kernel with %d-byte pages (%s)" % (cp, ps, note))
+                note = None
+                tagged = True
         if note is None and impl["warned"] != spec["warned"]:
             note = "warned=%s, expected %s" % (impl["warned"], spec["warned"])
         if note is None and impl["sysinfo"] != spec["sysinfo"]:
@@ -413,7 +458,7 @@ def compare_swap(case, impl, out, res, source):
     if note:
         res.disagree("model", inp, impl, model, spec, note=note)
         return "model"
-    return None
+    return "known" if tagged else None
 
 
 # ------------------------------------------------------------------------------ running cases
@@ -468,6 +513,9 @@ def py_render(case):
 def run_cases(ctx, impl, cases):
     """cases: driver lines (op vm / vmraw / swap / swapraw). Returns [(case, impl_out, driver_out)].
     The model drivers run in background threads while the implementation is exercised here."""
+    for case in cases:
+        if case["op"] in ("swap", "swapraw"):
+            case.setdefault("pagesize", 4096)
     with concurrent.futures.ThreadPoolExecutor(max_workers=1) as bg:
         fut = bg.submit(drive, ctx, cases)
         ims, files = [], []
@@ -475,11 +523,11 @@ def run_cases(ctx, impl, cases):
             a, b = py_render(case)
             files.append((a, b))
             if case["op"] in ("vm", "vmraw"):
-                ims.append(impl.vm(a, b, case["pagesize"]))
+                ims.append(impl.vm(a, b, case["pagesize"], case.get("unreadable")))
             elif case["op"] == "phymem":
                 ims.append(impl.phymem(a, b, case["st0"], case["rss_pages"]))
             else:
-                ims.append(impl.swap(a, case["sysinfo"], b))
+                ims.append(impl.swap(a, case["sysinfo"], b, case["pagesize"], case.get("unreadable")))
         outs = fut.result()
     rows = []
     for case, im, (a, b), out in zip(cases, ims, files, outs):
@@ -630,16 +678,24 @@ def magnitudes(rng, profile):
 def build_vm(rng, present, vals, zones, pagesize, noise=0, shuffle=False, memavail_zero=False):
     names = [k for k in REQUIRED + OPTIONAL if k in present]
     es = []
+    # the ` kB` suffix is optional for EVERY key (C08_meminfo_roundtrip says × 1024 with or without
+    # it): one case in five renders some of the keys psutil reads without the unit
+    unitless = rng.random() < 0.2
     for k in names:
         val = vals[k]
         if k == "MemAvailable" and memavail_zero:
             val = 0
-        es.append(entry(k, val, rng))
+        es.append(entry(k, val, rng, unit=not (unitless and rng.random() < 0.5)))
     for nm, unit in (rng.sample(NOISE, noise) if noise else []):
         es.insert(rng.randrange(len(es) + 1), entry(nm, rng.randrange(0, 2 ** 24), rng, unit))
     if shuffle:
         rng.shuffle(es)
-    return {"op": "vm", "entries": es, "zones": zones, "pagesize": pagesize}
+    case = {"op": "vm", "entries": es, "zones": zones, "pagesize": pagesize}
+    if zones is None:
+        # HOW /proc/zoneinfo is unreadable (the model only knows that it is): absent, a directory,
+        # permission denied, I/O error — `except OSError` must take them all
+        case["unreadable"] = rng.choice(UNREADABLE)
+    return case
 
 
 VM_FAMILIES = ["modern", "old_kernel", "random_subset", "memavail_zero", "fallback_keys_missing",
@@ -820,8 +876,11 @@ def exhaustive_vm(profiles, reduced=()):
                 n_rest = sum(1 for k in rest if k in present)
                 if n_rest not in (0, len(rest)):
                     continue
-            yield {"op": "vm", "entries": [entry(k, vals[k]) for k in present], "zones": zones,
-                   "pagesize": 4096}
+            c = {"op": "vm", "entries": [entry(k, vals[k], unit=(mask + i) % 5 != 0) for i, k in enumerate(present)],
+                 "zones": zones, "pagesize": PAGESIZES[mask % len(PAGESIZES)]}
+            if zones is None:
+                c["unreadable"] = UNREADABLE[mask % len(UNREADABLE)]
+            yield c
 
 
 def raw_vm_cases(rng, n):
@@ -938,15 +997,19 @@ def gen_swap(rng, keys, vstyle, profile):
         free = rng.randrange(0, total + 1)
     es = [entry("MemTotal", 16000000, rng), entry("MemFree", 3000000, rng)]
     if "SwapTotal" in keys:
-        es.append(entry("SwapTotal", total, rng))
+        es.append(entry("SwapTotal", total, rng, unit=rng.random() < 0.85))
     if "SwapFree" in keys:
-        es.insert(rng.randrange(len(es) + 1), entry("SwapFree", free, rng))
+        es.insert(rng.randrange(len(es) + 1), entry("SwapFree", free, rng, unit=rng.random() < 0.85))
     for nm, unit in rng.sample(NOISE[:-2], rng.choice([0, 4])):
         es.insert(rng.randrange(len(es) + 1), entry(nm, rng.randrange(2 ** 24), rng, unit))
     unit = rng.choice([1, 1, 4096, 1024])
     st = rng.choice([0, rng.randrange(2 ** 30)])
     sysinfo = sysc(st, rng.choice([0, rng.randrange(st + 1), st + 5]), unit, rng)
-    return {"op": "swap", "entries": es, "sysinfo": sysinfo, "vmstat": gen_vmstat(rng, vstyle)}
+    case = {"op": "swap", "entries": es, "sysinfo": sysinfo, "vmstat": gen_vmstat(rng, vstyle),
+            "pagesize": rng.choice(PAGESIZES)}
+    if case["vmstat"] is None:
+        case["unreadable"] = rng.choice(UNREADABLE)
+    return case
 
 
 def swap_tags(case, out):
@@ -1004,6 +1067,11 @@ def raw_swap_cases(rng=None, n=0):
             cases.append({"op": "swapraw", "meminfo": rng.choice([mi, b"SwapTotal: 5 kB\n", b""]).hex(),
                           "sysinfo": sysc(rng.randrange(100), rng.randrange(100), rng.choice([1, 4096]), rng),
                           "vmstat": v.hex()})
+    # the model follows the code's multiplier for every PAGESIZE (cfgAt); the unreadable file in all its ways
+    for i, c in enumerate(cases):
+        c["pagesize"] = PAGESIZES[i % len(PAGESIZES)]
+        if c["vmstat"] is None:
+            c["unreadable"] = UNREADABLE[i % len(UNREADABLE)]
     return cases
 
 
@@ -1060,7 +1128,7 @@ def validate_renderers(ctx, res):
                 zs.append(["other", ind, line[ind:].hex()])
         outs = ctx.driver().batch([
             {"op": "vm", "entries": es, "zones": zs, "pagesize": 4096},
-            {"op": "swap", "entries": es, "sysinfo": sysc(0, 0, 1), "vmstat": vs}])
+            {"op": "swap", "entries": es, "sysinfo": sysc(0, 0, 1), "vmstat": vs, "pagesize": 4096}])
         ok["meminfo"] = bytes.fromhex(outs[0]["meminfo"]) == raw
         ok["zoneinfo"] = bytes.fromhex(outs[0]["zoneinfo"]) == zraw
         ok["vmstat"] = bytes.fromhex(outs[1]["vmstat"]) == vraw
@@ -1186,6 +1254,13 @@ def correspond(ctx, res):
                 res.count("branch:" + t)
             if case["op"] in ("vm", "swap"):
                 res.count("entries", len(case["entries"]))
+                known = {hx(k) for k in REQUIRED + OPTIONAL + ["SwapTotal", "SwapFree"]}
+                if any(e[0] in known and not e[3] for e in case["entries"]):
+                    res.count("unit:key_psutil_reads_rendered_without_kB")
+            if case.get("unreadable"):
+                res.count("unreadable:%s:%s" % ("zoneinfo" if case["op"].startswith("vm") else "vmstat", case["unreadable"]))
+            if case["op"] in ("swap", "swapraw"):
+                res.count("swap:pagesize=%d" % case["pagesize"])
             nontriv = bool(tags - {"avail:kernel_estimate", "swap:meminfo", "vmstat:both"}) or case["op"].endswith("raw") \
                 or case["op"] == "phymem"
             res.case(case, nontrivial=nontriv,
@@ -1232,6 +1307,25 @@ def corpus():
            "vmstat": b"pswpin 5\npswpin_x 9\npswpout 3\n".hex(), "expect_sin": 9 * 4096}, "corpus:swap_prefix_clash"
     # sysinfo fallback with mem_unit = 4096: bytes = count × unit (C08_swap_sysinfo_bytes)
     yield {"op": "swap", "entries": [e("MemTotal", 10)], "sysinfo": sysc(25, 10, 4096), "vmstat": None}, "corpus:swap_sysinfo_unit"
+    # witness of C08_swap_hardcoded_4k_underreports (Props: swBigPages): 64 KiB pages, 3 in / 5 out
+    yield dict(SWAP_64K_WITNESS), "corpus:swap_64k_pages"
+    yield dict(SWAP_64K_WITNESS, pagesize=16384), "corpus:swap_16k_pages"
+    # the optional files unreadable in every way `except OSError` has to cover (audit item 5)
+    for how in UNREADABLE:
+        yield {"op": "vm", "entries": base + fb, "zones": None, "pagesize": 4096, "unreadable": how}, "corpus:zoneinfo_" + how
+        yield {"op": "swap", "entries": [e("SwapTotal", 10), e("SwapFree", 4)], "sysinfo": sysc(5, 3, 4096), "vmstat": None,
+               "pagesize": 4096, "unreadable": how}, "corpus:vmstat_" + how
+    # lines without the ` kB` unit for keys psutil reads: still × 1024 (audit item 7)
+    yield {"op": "vm", "entries": [entry("MemTotal", 1000, unit=False), entry("MemFree", 400, unit=False),
+                                   entry("Cached", 30, unit=False), entry("MemAvailable", 500, unit=False)],
+           "zones": None, "pagesize": 4096}, "corpus:unitless_lines"
+    yield {"op": "swap", "entries": [entry("SwapTotal", 10, unit=False), entry("SwapFree", 4, unit=False)],
+           "sysinfo": sysc(5, 3, 4096), "vmstat": [[hx("pswpin"), 1], [hx("pswpout"), 2]]}, "corpus:swap_unitless_lines"
+
+
+SWAP_64K_WITNESS = {"op": "swap", "entries": [[hx("SwapTotal"), 1000, 0, True], [hx("SwapFree"), 400, 0, True]],
+                    "sysinfo": [1111, 2222, 3333, 4444, 0, 0, 1], "vmstat": [[hx("pswpin"), 3], [hx("pswpout"), 5]],
+                    "pagesize": 65536}
 
 
 def search(ctx, res, broken):
@@ -1316,4 +1410,23 @@ def replay(ctx, rp, res):
 
 
 def check_finding(ctx, fnd):
+    """C08-swap-pagesize: replay the witness (64 KiB pages, 3 pages in / 5 out) on the real code with
+    `_pslinux.PAGESIZE` patched: reproduces iff sin/sout are pages × 4096 instead of pages × 65536."""
+    if fnd.get("id") != FINDING_SWAP_PAGESIZE:
+        return "gone"
+    case = {k: v for k, v in fnd["witness"]["case"].items()}
+    impl = Impl(ctx)
+    try:
+        (c, im, out), = run_cases(ctx, impl, [case])
+    finally:
+        impl.close()
+    want = out["spec"]["fields"]
+    if im["kind"] != "ok":
+        return "gone"
+    got = im["fields"]
+    if (got["sin"], got["sout"]) == (want["sin"], want["sout"]):
+        return "gone"
+    ps = case["pagesize"]
+    if (got["sin"] * ps, got["sout"] * ps) == (want["sin"] * 4096, want["sout"] * 4096):
+        return "reproduces"
     return "gone"
